@@ -114,7 +114,7 @@ pub fn val_of(obj: &Object) -> Val {
 }
 
 fn val_of_depth(obj: &Object, depth: usize) -> Val {
-    if depth > 12 {
+    if depth > 96 {
         return Val::Other("deep".into());
     }
     match obj {
